@@ -124,7 +124,7 @@ def gen_config(rng, opts=None):
             name = 'B%d%d' % (s, b)
             det = {}
             if rng.random() < 0.3:
-                det['extra_args'] = rng.choice(['x', '7', 'a b', 6, 2.5])
+                det['extra_args'] = rng.choice(['x', '7', 'a b', 6, 2.5, '--mode\tfast', 'trail  ', 'ünï'])
             if rng.random() < 0.2:
                 det['warmup'] = rng.randint(0, 3)
             if rng.random() < 0.2:
@@ -135,13 +135,13 @@ def gen_config(rng, opts=None):
               'benchmarks': benches}
         # variable values include the falsy ones: 0, 0.0, False (a run with input size 0 is a run like any other)
         if rng.random() < 0.5:
-            su['input_sizes'] = rng.choice([[1], [1, 2], ['s', 'l'], [0, 10], [0], [0.0, 2.5]])
+            su['input_sizes'] = rng.choice([[1], [1, 2], ['s', 'l'], [0, 10], [0], [0.0, 2.5], ['a\tb', 'c'], ['ü', 'x ']])
         if rng.random() < 0.3:
             su['cores'] = rng.choice([[1], [1, 4], [2], [0], [0, 2]])
         if rng.random() < 0.3:
-            su['variable_values'] = rng.choice([['a'], ['a', 'b'], [0, 1], [False, 'x'], [0]])
+            su['variable_values'] = rng.choice([['a'], ['a', 'b'], [0, 1], [False, 'x'], [0], ['v\tw'], [' lead', 'trail ']])
         if rng.random() < 0.2:
-            su['tags'] = rng.choice([['t1'], ['t1', 't2']])
+            su['tags'] = rng.choice([['t1'], ['t1', 't2'], ['t\t1', 'plain'], ['zeta', 'alpha', 'Mid']])
         if rng.random() < 0.6:
             su['warmup'] = rng.randint(0, 3)
         if rng.random() < 0.5:
@@ -262,8 +262,10 @@ class Probe(object):
                 'variables': run.benchmark.variables.as_dict(),
             })
         self.by_cols = {}
+        self.by_joined = {}      # the run columns as they stand in a data line (a column may contain a tab)
         for i, r in enumerate(self.runs):
             self.by_cols.setdefault(tuple(r['cols']), []).append(i)
+            self.by_joined.setdefault('\t'.join(r['cols']), []).append(i)
 
     def run_index_of_cmd(self, cmdline_template):
         for i, r in enumerate(self.runs):
@@ -587,18 +589,18 @@ def canon_lines(text, probe, profile_file=False):
             cols = line.split('\t')
             if profile_file:
                 # invocation, num_iterations, 9 run columns, run id, json
-                if len(cols) == 13:
-                    ks = probe.by_cols.get(tuple(cols[2:11]), [])
-                    out.append(['M', int(cols[0]), 1, '0.000000' if cols[12] == PERF_JSON else cols[12], '', 'total',
-                                ks[0] if len(ks) == 1 else -1, int(cols[11])])
+                if len(cols) >= 13 and cols[-2].isdigit():
+                    ks = probe.by_joined.get('\t'.join(cols[2:-2]), [])
+                    out.append(['M', int(cols[0]), 1, '0.000000' if cols[-1] == PERF_JSON else cols[-1], '', 'total',
+                                ks[0] if len(ks) == 1 else -1, int(cols[-2])])
                     meta.append(('P', int(cols[1]), ks[0] if len(ks) == 1 else -1))
                 else:
                     out.append(['?', 'profile-cols:%d' % len(cols)])
-            elif len(cols) == 15:
-                ks = probe.by_cols.get(tuple(cols[5:14]), [])
+            elif len(cols) >= 15 and probe.by_joined.get('\t'.join(cols[5:-1])):
+                ks = probe.by_joined.get('\t'.join(cols[5:-1]), [])
                 try:
                     out.append(['M', int(cols[0]), int(cols[1]), cols[2], cols[3], cols[4],
-                                ks[0] if len(ks) == 1 else -1, int(cols[14])])
+                                ks[0] if len(ks) == 1 else -1, int(cols[-1])])
                 except ValueError:
                     out.append(['?', 'cols:' + line[:60]])
             else:
